@@ -446,3 +446,13 @@ Qed.
 Lemma frag_auto_order : forall img sf : bool,
   (if auto_order_is_image_guard img then auto_order_of_image sf else default_channels_first) = (img && sf)%bool.
 Proof. intros [] []; reflexivity. Qed.
+
+(* ---------- evaluation helpers used by the correspondence, pinned on concrete inputs ---------- *)
+(* run-length encoding used to print tensors: accepted and rejected pairs *)
+Example ex_rle : rle [5; 5; 7; 5]%Z = [(5%Z, 2); (7%Z, 1); (5%Z, 1)] /\ rle [5; 7]%Z <> [(5%Z, 2); (7%Z, 1)] /\ rle [9]%Z = [(9%Z, 1)] /\ rle [] = [].
+Proof. repeat split; try reflexivity. discriminate. Qed.
+(* the scripted wrapper run lists sub-environment 0 first, one row per sub-environment *)
+Example ex_run_wrapped_scripted_rows :
+  run_wrapped_scripted (SBox [1]) [WMonitor] [[mk_episode 4 0 [mk_sstep 5 0 true false 0]]; [mk_episode 6 0 [mk_sstep 7 0 true false 0]]] [VReset]
+  = [[PWReset [(0%Z, [1], [(4%Z, 1)])]]; [PWReset [(0%Z, [1], [(6%Z, 1)])]]].
+Proof. vm_compute. reflexivity. Qed.
